@@ -203,6 +203,12 @@ def run_accept(case, r):
         if len(b.data_frames):
             b.create_data_frame("fresh", "t", col_dict={"c": int})
             o.create_data_frame("frame", "t", col_dict={"c": int})
+        # copies that keep the id of a local entity but live in the other block under another name
+        o.create_data_array(name="sig-copy-in-other", copy_from=b.data_arrays["sig"])
+        o.create_tag(name="tag-copy-in-other", copy_from=b.tags["tag"])
+        o.create_multi_tag(name="mtag-copy-in-other", copy_from=b.multi_tags["mtag"])
+        if len(b.data_frames):
+            o.create_data_frame(name="frame-copy-in-other", copy_from=b.data_frames["frame"])
         g, t, mt, da = b.groups["grp"], b.tags["tag"], b.multi_tags["mtag"], b.data_arrays["sig"]
         lists = {
             "group.data_arrays": (g.data_arrays, "array"), "group.tags": (g.tags, "tag"), "group.multi_tags": (g.multi_tags, "mtag"),
@@ -212,10 +218,10 @@ def run_accept(case, r):
             "data_array.sources": (da.sources, "source"),
         }
         pool = {
-            "array": {"same-block": b.data_arrays["fresh"], "foreign-other-name": o.data_arrays["only-in-other"], "foreign-same-name": o.data_arrays["sig"]},
-            "tag": {"same-block": b.tags["fresh"], "foreign-other-name": o.tags["only-in-other"], "foreign-same-name": o.tags["tag"]},
-            "mtag": {"same-block": b.multi_tags["fresh"], "foreign-other-name": o.multi_tags["only-in-other"], "foreign-same-name": o.multi_tags["mtag"]},
-            "frame": {"same-block": b.data_frames["fresh"], "foreign-same-name": o.data_frames["frame"]} if len(b.data_frames) else {},
+            "array": {"same-block": b.data_arrays["fresh"], "foreign-other-name": o.data_arrays["only-in-other"], "foreign-same-name": o.data_arrays["sig"], "foreign-kept-id-copy": o.data_arrays["sig-copy-in-other"]},
+            "tag": {"same-block": b.tags["fresh"], "foreign-other-name": o.tags["only-in-other"], "foreign-same-name": o.tags["tag"], "foreign-kept-id-copy": o.tags["tag-copy-in-other"]},
+            "mtag": {"same-block": b.multi_tags["fresh"], "foreign-other-name": o.multi_tags["only-in-other"], "foreign-same-name": o.multi_tags["mtag"], "foreign-kept-id-copy": o.multi_tags["mtag-copy-in-other"]},
+            "frame": {"same-block": b.data_frames["fresh"], "foreign-same-name": o.data_frames["frame"], "foreign-kept-id-copy": o.data_frames["frame-copy-in-other"]} if len(b.data_frames) else {},
             "source": {"same-block": b.sources["fresh"], "nested-depth2": b.sources["src"].sources["other"], "nested-depth3": deep,
                        "foreign-same-name": o.sources["src"], "foreign-nested-same-name": o.sources["src"].sources["src"],
                        "foreign-deep": o.sources["src"].sources["src"].sources["deep3"]},
@@ -232,7 +238,7 @@ def run_accept(case, r):
                 r.evals += 1
                 r.nontrivial += 1
                 before = [e.id for e in lst]
-                if hasattr(cand, "id") and cand.id in before:
+                if hasattr(cand, "id") and cand.id in before and cname != "foreign-kept-id-copy":
                     continue        # re-appending a linked entity is outside the alphabet
                 try:
                     if how == "append":
@@ -340,6 +346,26 @@ def run_dimlink(case, r):
                 if d2.unit != "ms" or d2.label != "time":
                     r.viol("C05|dimlink|%s|no-read-through" % cls, "array unit/label change not visible through the dimension", {})
                     return
+            # re-linking through another handle of the same dimension: every handle follows
+            r.evals += 1
+            r.nontrivial += 1
+            other_src = b.create_data_array("other%d" % k, "t", data=src * 10.0, unit="s", label="other")
+            held = da.dimensions[len(da.dimensions) - 1]
+            _ = (list(held.ticks), held.unit, held.label)          # the held handle has read through the old link
+            via_group_path = b.data_arrays[da.name].dimensions[len(da.dimensions) - 1]
+            via_group_path.link_data_array(other_src, idx)
+            vec_o = (src * 10.0)[tuple(slice(None) if i == -1 else i for i in idx)]
+            if list(held.ticks) != vec_o.tolist() or held.unit != "s" or held.label != "other":
+                r.viol("C05|dimlink|rank%d|held-handle-follows-old-link" % len(shape),
+                       "after re-linking through another handle the held dimension reports ticks %r unit %r label %r (new array: %r s other)" % (
+                           list(held.ticks), held.unit, held.label, vec_o.tolist()), {})
+                return
+            held.unit = "ks"
+            if other_src.unit != "ks" or ticksrc.unit != "ms":
+                r.viol("C05|dimlink|rank%d|held-handle-writes-to-old-array" % len(shape),
+                       "unit written through the held handle landed in the wrong array (new %r, old %r)" % (other_src.unit, ticksrc.unit), {})
+                return
+            d2 = da.dimensions[len(da.dimensions) - 1]
             # explicit ticks replace the link
             r.evals += 1
             d2.ticks = [1.0, 2.0]
